@@ -20,6 +20,17 @@ impl RawStore {
     pub fn batch(&self) -> (r: Result<RawBatch<'_>, StoreError>)
         ensures r matches Ok(b) ==> b.store() == self { unimplemented!() }
 }
+impl RawStore {
+    // Store::get_ser: the committed value under the key
+    #[verifier::external_body]
+    pub fn get_ser<T>(&self, key: &[u8], deser_mode: Option<u8>) -> (r: Result<Option<T>, StoreError>)
+        ensures r matches Ok(v) ==> v == raw_get::<T>(self, key@) { unimplemented!() }
+}
+// grin_store::option_to_not_found: Ok(Some(v)) -> Ok(v), Ok(None) -> Err(NotFoundErr(msg())), Err(e) -> Err(e)
+#[verifier::external_body]
+pub fn option_to_not_found<T, F: Fn() -> String>(res: Result<Option<T>, StoreError>, field_name: F) -> (r: Result<T, StoreError>)
+    ensures (r matches Ok(v) ==> res == Ok::<Option<T>, StoreError>(Some(v))), (res matches Ok(Some(v)) ==> r == Ok::<T, StoreError>(v))
+{ unimplemented!() }
 impl<'a> RawBatch<'a> {
     pub uninterp spec fn store(&self) -> &RawStore;
     #[verifier::external_body]
